@@ -44,8 +44,8 @@ func normExpr(info *types.Info, pkg *types.Package, e ast.Expr) string {
 // genPanicSites: in the packages on the load / compile / resolve / list path, every
 // expression that can panic at run time by itself: index and slice expressions on slices,
 // arrays and strings (map indexing cannot panic), type assertions without comma-ok,
-// calls to Must* functions, explicit panic(...), pointer dereferences of results of map
-// lookups are not tracked. Keyed by function + normalised expression text.
+// calls to Must* functions, explicit panic(...), and pointers bound from a two-result call
+// whose ok / error companion is discarded (`p, _ := lookup(k)`). Keyed by function + normalised expression text.
 func genPanicSites(pkgs []*packages.Package) {
 	want := map[string]bool{
 		"task": true, "taskfile": true, "taskfile/ast": true, "args": true, "errors": true,
@@ -121,6 +121,21 @@ func genPanicSites(pkgs []*packages.Package) {
 						case *types.Pointer:
 							if _, ok := u.Elem().Underlying().(*types.Array); ok {
 								add("index", x)
+							}
+						}
+					case *ast.AssignStmt:
+						// `p, _ := lookup(...)`: a pointer taken from a call whose ok / error companion is discarded
+						if len(x.Lhs) == 2 && len(x.Rhs) == 1 {
+							if id, ok := x.Lhs[1].(*ast.Ident); ok && id.Name == "_" {
+								if call, ok := x.Rhs[0].(*ast.CallExpr); ok {
+									if first, ok := x.Lhs[0].(*ast.Ident); ok && first.Name != "_" {
+										if tup, ok := p.TypesInfo.TypeOf(call).(*types.Tuple); ok && tup.Len() == 2 {
+											if _, isPtr := tup.At(0).Type().Underlying().(*types.Pointer); isPtr {
+												add("unchecked", call)
+											}
+										}
+									}
+								}
 							}
 						}
 					case *ast.SliceExpr:
